@@ -244,3 +244,88 @@ Proof.
   { unfold V'. rewrite <- (other_endpoints rho V HV Hrho). apply subseqs_map. }
   rewrite EV, map_map. unfold G, NQ. reflexivity.
 Qed.
+
+(* ================================================================== 4. no forest with a repeated / missing root *)
+Lemma filter_neqb_lt j : forall l, In j l -> (length (filter (neqb j) l) < length l)%nat.
+Proof.
+  induction l as [|a t IH]; intros H; [destruct H|]. cbn [filter]. unfold neqb at 1.
+  destruct (Nat.eqb_spec a j) as [->|Hne]; cbn [negb length].
+  - pose proof (filter_partition_length (neqb j) t). lia.
+  - destruct H as [E|H]; [contradiction|]. specialize (IH H). lia.
+Qed.
+
+Lemma pigeon (P : nat -> nat -> Prop) : forall Rep S, NoDup Rep ->
+  (forall x, In x Rep -> exists s, In s S /\ P x s) ->
+  (forall x x' s, In x Rep -> In x' Rep -> P x s -> P x' s -> x = x') ->
+  (length Rep <= length S)%nat.
+Proof.
+  induction Rep as [|x t IH]; intros S Hnd Hex Hinj; [cbn; lia|].
+  inversion Hnd as [|? ? Hx Ht]; subst.
+  destruct (Hex x ltac:(left; reflexivity)) as [s [Hs Hp]].
+  assert (Hle : (length t <= length (filter (neqb s) S))%nat).
+  { apply IH; [exact Ht| |].
+    - intros x' Hx'. destruct (Hex x' ltac:(right; exact Hx')) as [s' [Hs' Hp']].
+      exists s'. split; [|exact Hp']. apply filter_In. split; [exact Hs'|]. unfold neqb.
+      destruct (Nat.eqb_spec s' s) as [->|]; [|reflexivity]. exfalso.
+      assert (x = x') by (apply (Hinj x x' s); [left; reflexivity | right; exact Hx' | exact Hp | exact Hp']).
+      subst. contradiction.
+    - intros a b s' Ha Hb. apply Hinj; right; assumption. }
+  pose proof (filter_neqb_lt s S Hs). cbn [length]. lia.
+Qed.
+
+(* a root list with a repeated element admits no rooted forest *)
+Lemma RF_repeated_root V R0 J F j : NoDup V -> edges_in V F -> incl (R0 ++ J) V ->
+  In j R0 -> In j J -> RF V (R0 ++ J) F -> False.
+Proof.
+  intros HV HF HRV Hj0 HjJ [Hlen Hreach].
+  destruct (component_reps V F HF) as [Rep [HRep [Hincl [Hrep [Hsep Hl]]]]].
+  rewrite (dedup_n_NoDup_id V HV) in Hl. rewrite app_length in Hlen.
+  set (S := R0 ++ filter (neqb j) J).
+  assert (Hp : (length Rep <= length S)%nat).
+  { apply (pigeon (fun x s => conn F x s)); [exact HRep| |].
+    - intros x Hx. destruct (Hreach x (Hincl x Hx)) as [r [Hr Hc]]. apply in_app_or in Hr.
+      destruct (Nat.eq_dec r j) as [->|Hne].
+      + exists j. split; [apply in_or_app; left; exact Hj0 | exact Hc].
+      + exists r. split; [|exact Hc]. apply in_or_app. destruct Hr as [Hr|Hr]; [left; exact Hr|].
+        right. apply filter_In. split; [exact Hr|]. unfold neqb. destruct (Nat.eqb_spec r j); [contradiction | reflexivity].
+    - intros x x' s Hx Hx' Hc Hc'. apply Hsep; [exact Hx | exact Hx'|].
+      eapply conn_trans; [exact Hc | apply conn_sym, Hc']. }
+  unfold S in Hp. rewrite app_length in Hp. pose proof (filter_neqb_lt j J HjJ). lia.
+Qed.
+
+Lemma NQ_repeated_root V R0 J j : NoDup V -> incl (R0 ++ J) V -> In j R0 -> In j J -> NQ V (R0 ++ J) == 0.
+Proof.
+  intros HV HRV Hj0 HjJ. unfold NQ. apply qsum_zero. intros F HF. apply subseqs_spec, subl_incl in HF.
+  destruct (rfb V (R0 ++ J) F) eqn:E; [|reflexivity]. exfalso.
+  apply (rfb_spec V (R0 ++ J) F (pairs_edges_in V F HF) HRV) in E.
+  exact (RF_repeated_root V R0 J F j HV (pairs_edges_in V F HF) HRV Hj0 HjJ E).
+Qed.
+
+Lemma NQ_no_root V : V <> [] -> NQ V [] == 0.
+Proof.
+  intros HV. unfold NQ. apply qsum_zero. intros F _. unfold rfb.
+  destruct V as [|v V]; [contradiction HV; reflexivity|]. cbn [forallb existsb]. rewrite andb_false_r. reflexivity.
+Qed.
+
+(* ================================================================== 5. the binomial theorem, in subset form *)
+Lemma inject_nat_add a b : inject_Z (Z.of_nat (a + b)) == inject_Z (Z.of_nat a) + inject_Z (Z.of_nat b).
+Proof. rewrite Nat2Z.inj_add, inject_Z_plus. reflexivity. Qed.
+
+Lemma subset_binomial (X : Q) : forall (L : list nat) (a : nat),
+  qsum (map (fun J => inject_Z (Z.of_nat (a + length J)) * qpn X (length L - length J)) (subseqs L)) ==
+  inject_Z (Z.of_nat a) * qpn (1 + X) (length L) + inject_Z (Z.of_nat (length L)) * qpn (1 + X) (length L - 1).
+Proof.
+  induction L as [|x t IH]; intros a.
+  - cbn. rewrite Nat.add_0_r. ring.
+  - cbn [subseqs]. rewrite map_app, qsum_app, map_map. cbn [length].
+    assert (E1 : qsum (map (fun J => inject_Z (Z.of_nat (a + S (length J))) * qpn X (S (length t) - S (length J))) (subseqs t)) ==
+                 qsum (map (fun J => inject_Z (Z.of_nat (S a + length J)) * qpn X (length t - length J)) (subseqs t))).
+    { apply qsum_map_ext. intros J _. replace (a + S (length J))%nat with (S a + length J)%nat by lia. reflexivity. }
+    assert (E2 : qsum (map (fun J => inject_Z (Z.of_nat (a + length J)) * qpn X (S (length t) - length J)) (subseqs t)) ==
+                 X * qsum (map (fun J => inject_Z (Z.of_nat (a + length J)) * qpn X (length t - length J)) (subseqs t))).
+    { rewrite <- qsum_scale. apply qsum_map_ext. intros J HJ. apply subseqs_spec, subl_length in HJ.
+      replace (S (length t) - length J)%nat with (S (length t - length J)) by lia. cbn [qpn]. ring. }
+    rewrite E1, E2, (IH (S a)), (IH a). rewrite !inject_S. cbn [qpn Nat.sub]. rewrite Nat.sub_0_r.
+    destruct (length t) as [|k]; cbn [qpn Nat.sub]; [change (inject_Z (Z.of_nat 0)) with 0; ring|].
+    rewrite Nat.sub_0_r. rewrite !inject_S. ring.
+Qed.
